@@ -150,7 +150,7 @@ func NewTypeInfo(doc *ast.Document, s *schema.Schema, features schema.FeatureSet
 			} else if op.Value == "subscription" {
 				t = s.SubscriptionType()
 			}
-			if t != nil {
+			if t != nil && t.RequiredFeatures.IsSubsetOf(features) {
 				selectionSetScope = t
 			}
 		case *ast.SelectionSet:
